@@ -374,13 +374,13 @@ Section Extract.
   (* the source does not pass the checks made before the destination is opened (unreadable
      pragma, version other than 2, Header.ReadFrom refuses, Seek refuses): an error, and both
      paths are as they were -- in particular no destination file is created *)
-  Definition extract_admits (o : xopts) (a : bytes) : Prop :=
+  Definition extract_accepts (o : xopts) (a : bytes) : Prop :=
     exists roots rest used h rest2,
       read_header hdrdec (x_maxh o) a = Ok (roots, 2, rest, used) /\
       read_v2hdr rest = Ok (h, rest2) /\ seek_ok o (h_doff h) = true.
 
   Theorem extract_rejects_untouched csz o a dst : csz_pos csz ->
-    ~ extract_admits o a ->
+    ~ extract_accepts o a ->
     exists r, r <> XOk /\ extract_file hdrdec csz o (mkfs (Some a) dst) = (r, mkfs (Some a) dst).
   Proof.
     intros Hcsz Hno. rewrite extract_file_closed by exact Hcsz. unfold extract_spec. cbn [f_src].
